@@ -203,11 +203,45 @@ def run_pair(case, counters, violations, sigs, samples):
 
 
 def plan(tier, seed):
-    return F.std_plan(tier, seed, 2560, 30000)
+    return F.std_plan(tier, seed, 2560, 30000) + [{"expr_tail": True, "seed": seed * 17 + 3, "count": 400 if tier == "quick" else 6000}]
+
+
+def run_expr_tail(desc):
+    """Coroutine guards inside boolean expressions, in the one position where the library awaits them
+    (tail of a top-level and/or chain on a machine that runs on the async engine): must equal Python's
+    evaluation, i.e. what the synchronous twin of the guard would give."""
+    import random
+
+    from props import c08
+
+    rng = random.Random(desc["seed"])
+    counters = {"fired": 0, "blocked": 0, "readorder_compared": 0, "invalid_rejected": 0, "shortcircuit_cases": 0}
+    violations, sigs = [], set()
+    for i in range(desc["count"]):
+        case = c08.gen_async_last_case(rng)
+        c08.run_case(case, counters, violations, sigs, [])
+        sigs.add(F.h(("expr-tail", case["conds"] and "cond" or "unless", X_skel(case))))
+    out_v = []
+    for v in violations[:2]:
+        v["rule"] = "C05.coroutine-guard-in-expression"
+        out_v.append(v)
+    return {"evaluations": desc["count"], "signatures": sorted(sigs), "samples": [],
+            "counters": {"expr_tail_cases": desc["count"], "expr_tail_sends": counters["fired"] + counters["blocked"]},
+            "violations": out_v}
+
+
+def X_skel(case):
+    from vmon import exprgen
+
+    e = (case["conds"] or case["unlesses"])[0]
+    return exprgen.skeleton(e["tree"])
 
 
 def run_shard(desc):
     import random
+
+    if desc.get("expr_tail"):
+        return run_expr_tail(desc)
 
     rng = random.Random(desc["seed"])
     counters = {"runs": 0, "twin_pairs": 0, "twin_steps_compared": 0, "suspensions": 0, "foreign_aborts": 0}
